@@ -121,7 +121,7 @@ def bval(rng, w, pb=0.5):
 
 def pick_width(g, small, lo=1, hi=16):
     if small:
-        return g.randint(lo, max(lo, min(hi, 5)))
+        return max(lo, min(hi, g.choice([1, 1, 2, 2, 3, 4, 5])))
     return g.randint(lo, hi)
 
 
@@ -243,6 +243,10 @@ def gen_comb(streams):
         cfg['empty_as_none'] = g.random() < 0.3
         cfg['reducer'] = g.choice([None] + REDUCERS)
         cfg['final'] = g.choice([None] + FINALS)
+    if g.random() < 0.12:
+        # all operands of one width (all-1-bit configurations are otherwise very rare)
+        w = g.choice([1, 1, 2, widths[0]])
+        widths = [max(2, w) if signed else w] * len(widths)
     case = {'kind': 'comb', 'gen': gen, 'widths': widths, 'cfg': cfg}
     vw = vec_widths(case)
     total = sum(vw)
